@@ -389,6 +389,76 @@ fn op_evaluate_v_rm<T: Evaluate + Num>(c: &Value) -> Vec<u64> {
     }
     o
 }
+// evaluate_v consumed in two stages: the first `take` values one by one through next(), the rest drained by a fold-based consumer
+// (for_each); then once more with the rest drained through fold itself - both lists must be the one a plain collect gives
+fn op_evaluate_v_mixed<T: Evaluate + Num>(c: &Value) -> Vec<u64> {
+    let pw = Piecewise { segments: parse_segs::<T>(&c["segs"]) };
+    let xs: Vec<f64> = u64s(&c["xs"]).iter().map(|&x| f(x)).collect();
+    let take = c["take"].as_u64().unwrap_or(0) as usize;
+    let mut o = Vec::new();
+    {
+        let mut it = pw.evaluate_v(xs.clone());
+        for _ in 0..take {
+            if let Some(r) = it.next() {
+                o.push(r.to_bits());
+            }
+        }
+        it.for_each(|r| o.push(r.to_bits()));
+    }
+    {
+        let mut it = pw.evaluate_v(xs.clone());
+        for _ in 0..take {
+            if let Some(r) = it.next() {
+                o.push(r.to_bits());
+            }
+        }
+        let rest = it.fold(Vec::new(), |mut acc, r| {
+            acc.push(r.to_bits());
+            acc
+        });
+        o.extend(rest);
+    }
+    o
+}
+// tables far beyond what a case file can carry, built and checked HERE: n linear pieces (end i, i + 2i x); the derivative must have n
+// pieces, piece i with end i and the single coefficient 2i.  Returns [count, index of the first wrong piece or u64::MAX]
+fn op_pw_derivative_big(c: &Value) -> Vec<u64> {
+    let n = c["n"].as_u64().expect("n") as usize;
+    let segments: Vec<Segment<Poly1>> = (0..n).map(|i| Segment { end: i as f64, poly: Poly1([i as f64, 2.0 * i as f64]) }).collect();
+    let d = Piecewise { segments }.derivative();
+    let bad = d
+        .segments
+        .iter()
+        .enumerate()
+        .find(|(i, s)| s.end.to_bits() != (*i as f64).to_bits() || s.poly.0.to_bits() != (2.0 * *i as f64).to_bits())
+        .map(|(i, _)| i as u64)
+        .unwrap_or(u64::MAX);
+    vec![d.segments.len() as u64, bad]
+}
+// n knots (i, a gently varying ordinate), built HERE; every interior knot slope of the returned cubics (derivative of cubic i at its
+// right knot, from its coefficients) against the harmonic-mean rule computed directly.  Returns [count, first bad knot or u64::MAX]
+fn op_spline_big(c: &Value) -> Vec<u64> {
+    let n = c["n"].as_u64().expect("n") as usize;
+    let ys: Vec<f64> = (0..n).map(|i| ((i * 37 % 101) as f64) * (0.125 / 101.0) + (i as f64) * 0.5).collect();
+    let knots: Vec<Knot> = (0..n).map(|i| Knot { x: i as f64 * 0.5, y: ys[i] }).collect();
+    let sp = constrained_spline(&knots);
+    let mut bad = u64::MAX;
+    for j in 1..n.saturating_sub(1) {
+        let s0 = (ys[j] - ys[j - 1]) / 0.5;
+        let s1 = (ys[j + 1] - ys[j]) / 0.5;
+        let want = if s0 * s1 <= 0.0 { 0.0 } else { 2.0 / (1.0 / s0 + 1.0 / s1) };
+        let x = knots[j].x;
+        for seg in [j - 1, j] {
+            let p = &sp.segments[seg].poly.0;
+            let got = p[1] + x * (2.0 * p[2] + x * 3.0 * p[3]);
+            // all slopes are about 1 and |x| stays below 1e5: the cubic's own rounding noise at its knot is below 1e-5
+            if !((got - want).abs() <= 1e-4) {
+                bad = bad.min(j as u64);
+            }
+        }
+    }
+    vec![sp.segments.len() as u64, bad]
+}
 fn op_evaluate_v<T: Evaluate + Num>(c: &Value) -> Vec<u64> {
     let pw = Piecewise { segments: parse_segs::<T>(&c["segs"]) };
     let xs: Vec<f64> = u64s(&c["xs"]).iter().map(|&x| f(x)).collect();
@@ -460,6 +530,38 @@ where
     let v: Vec<_> = Segment::integral_iter_ref(&segs, knot_of(c)).collect();
     dump_segs(&v)
 }
+// the two segment-integration iterators consumed through ADAPTORS instead of a plain collect: element i through nth(i) and through
+// skip(i).next() on fresh iterators, and the whole list re-assembled from step_by(2) / skip(1).step_by(2); four full dumps
+// (by value: nth, skip, step_by; by reference: nth) - every one must be the list a plain collect gives
+fn op_integral_iter_adaptors<T: HasIntegral + Num>(c: &Value) -> Vec<u64>
+where
+    T::IntegralOf: Num + Translate,
+{
+    let segs = parse_segs::<T>(&c["segs"]);
+    let n = segs.len();
+    let mut o = Vec::new();
+    let v: Vec<_> = (0..n).filter_map(|i| Segment::integral_iter(segs.clone(), knot_of(c)).nth(i)).collect();
+    o.extend(dump_segs(&v));
+    let v: Vec<_> = (0..n).filter_map(|i| Segment::integral_iter(segs.clone(), knot_of(c)).skip(i).next()).collect();
+    o.extend(dump_segs(&v));
+    let ev: Vec<_> = Segment::integral_iter(segs.clone(), knot_of(c)).step_by(2).collect();
+    let od: Vec<_> = Segment::integral_iter(segs.clone(), knot_of(c)).skip(1).step_by(2).collect();
+    let mut v = Vec::new();
+    let (mut a, mut b) = (ev.into_iter(), od.into_iter());
+    loop {
+        match a.next() {
+            Some(x) => v.push(x),
+            None => break,
+        }
+        if let Some(y) = b.next() {
+            v.push(y);
+        }
+    }
+    o.extend(dump_segs(&v));
+    let v: Vec<_> = (0..n).filter_map(|i| Segment::integral_iter_ref(&segs, knot_of(c)).nth(i)).collect();
+    o.extend(dump_segs(&v));
+    o
+}
 // Piecewise::integral, Segment::integral_iter (by value) and Segment::integral_iter_ref on the same input
 fn op_pw_integral_all<T: HasIntegral + Num>(c: &Value) -> Vec<u64>
 where
@@ -526,6 +628,11 @@ fn op_pw_merge_eval(c: &Value) -> Vec<u64> {
 }
 fn op_linear(c: &Value) -> Vec<u64> {
     dump_segs(&linear(&parse_knots(&c["knots"])).segments)
+}
+// linear(knots) evaluated by the crate at the given arguments
+fn op_linear_eval(c: &Value) -> Vec<u64> {
+    let pw = linear(&parse_knots(&c["knots"]));
+    u64s(&c["xs"]).iter().map(|&x| pw.evaluate(f(x)).to_bits()).collect()
 }
 fn op_spline(c: &Value) -> Vec<u64> {
     dump_segs(&constrained_spline(&parse_knots(&c["knots"])).segments)
@@ -773,6 +880,10 @@ fn run_case(c: &Value) -> Vec<u64> {
         "evaluator" => t_all!(ty; op_evaluator(c)),
         "evaluate_v" => t_all!(ty; op_evaluate_v(c)),
         "evaluator_direct" => t_all!(ty; op_evaluator_direct(c)),
+        "evaluate_v_mixed" => t_all!(ty; op_evaluate_v_mixed(c)),
+        "pw_derivative_big" => op_pw_derivative_big(c),
+        "spline_big" => op_spline_big(c),
+        "integral_iter_adaptors" => t_integrable!(ty; op_integral_iter_adaptors(c)),
         "evaluate_v_rm" => t_all!(ty; op_evaluate_v_rm(c)),
         "evaluate_v_lazy" => t_all!(ty; op_evaluate_v_lazy(c)),
         "evaluate_v_pt" => t_all!(ty; op_evaluate_v_pt(c)),
@@ -797,6 +908,7 @@ fn run_case(c: &Value) -> Vec<u64> {
         "pw_merge_eval" => op_pw_merge_eval(c),
         "integral_eval" => t_integrable!(ty; op_log_integral(c)),
         "linear" => op_linear(c),
+        "linear_eval" => op_linear_eval(c),
         "spline" => op_spline(c),
         "polyn_eval" => op_polyn_eval(c),
         "polyn_translate" => op_polyn_translate(c),
